@@ -45,7 +45,9 @@ def write_replay(prop, tag, payload):
     os.makedirs(REPLAY_DIR, exist_ok=True)
     path = os.path.join(REPLAY_DIR, "%s-%s.json" % (prop, tag))
     with open(path, "w") as f:
-        json.dump(jsonable(payload), f, indent=1, sort_keys=True)
+        # key order is kept: the world spec's dicts (layers, groups, lib, ...) are
+        # materialised in their own order, which is part of the execution
+        json.dump(jsonable(payload), f, indent=1)
     return path
 
 
